@@ -208,6 +208,56 @@ pub fn sched_take() -> Vec<SchedEvent> {
         .unwrap_or_default()
 }
 
+impl SchedState {
+    /// Chooses what the calling thread does after an event (0 = nothing).
+    fn next_action(&mut self) -> u32 {
+        // xorshift64
+        self.rng ^= self.rng << 13;
+        self.rng ^= self.rng >> 7;
+        self.rng ^= self.rng << 17;
+        let r = (self.rng >> 16) as u32;
+        if r % 100 < self.intensity {
+            1 + (r >> 8) % 3
+        } else {
+            0
+        }
+    }
+}
+
+pub(crate) fn sched_perturb(action: u32) {
+    match action {
+        1 => std::thread::yield_now(),
+        2 => std::thread::sleep(std::time::Duration::from_micros(50)),
+        3 => std::thread::sleep(std::time::Duration::from_micros(500)),
+        _ => {}
+    }
+}
+
+/// Logs an event (if a log is active) and returns the perturbation to apply.
+pub(crate) fn sched_log(
+    site: &'static str,
+    buf: Option<usize>,
+    frame: Option<usize>,
+    qlen: Option<usize>,
+) -> u32 {
+    let mut guard = SCHED.lock().unwrap_or_else(std::sync::PoisonError::into_inner);
+    let Some(st) = guard.as_mut() else {
+        return 0;
+    };
+    let tid = std::thread::current().id();
+    let n = st.threads.len();
+    let thread = *st.threads.entry(tid).or_insert(n);
+    st.log.push(SchedEvent {
+        thread,
+        site,
+        buf,
+        frame,
+        qlen,
+    });
+    st.next_action()
+}
+
+/// A scheduling point that is not a channel operation.
 #[allow(dead_code)]
 pub(crate) fn sched_point(
     site: &'static str,
@@ -215,36 +265,164 @@ pub(crate) fn sched_point(
     frame: Option<usize>,
     qlen: Option<usize>,
 ) {
-    let action = {
-        let mut guard = SCHED.lock().unwrap_or_else(std::sync::PoisonError::into_inner);
-        let Some(st) = guard.as_mut() else {
-            return;
-        };
+    let a = sched_log(site, buf, frame, qlen);
+    sched_perturb(a);
+}
+
+// ------------------------------------------------ instrumented channels
+
+/// Drop-in replacements for the `crossbeam_channel` items used by `par.rs`.
+///
+/// While a schedule log is active (`sched_start`), every send / receive is
+/// performed with `try_send` / `try_recv` *under the log's lock*, so that the
+/// order of the logged events is exactly the order in which the operations took
+/// effect on the channels. When no log is active they are the plain blocking
+/// operations.
+pub mod chan {
+    use super::{sched_perturb, SchedEvent, SCHED};
+
+    /// How a channel item is shown in the event log: `(buf, frame)`.
+    pub trait Describe {
+        const CHANNEL: &'static str;
+        fn describe(&self) -> (Option<usize>, Option<usize>);
+    }
+    impl Describe for usize {
+        const CHANNEL: &'static str = "refill";
+        fn describe(&self) -> (Option<usize>, Option<usize>) {
+            (Some(*self), None)
+        }
+    }
+    impl Describe for Option<usize> {
+        const CHANNEL: &'static str = "encode";
+        fn describe(&self) -> (Option<usize>, Option<usize>) {
+            (*self, None)
+        }
+    }
+    impl Describe for Vec<u8> {
+        const CHANNEL: &'static str = "md5";
+        // `frame` carries the length of the byte block (0 = stop token).
+        fn describe(&self) -> (Option<usize>, Option<usize>) {
+            (None, Some(self.len()))
+        }
+    }
+
+    pub struct Sender<T>(crossbeam_channel::Sender<T>);
+    pub struct Receiver<T>(crossbeam_channel::Receiver<T>);
+
+    impl<T> Clone for Sender<T> {
+        fn clone(&self) -> Self {
+            Self(self.0.clone())
+        }
+    }
+    impl<T> Clone for Receiver<T> {
+        fn clone(&self) -> Self {
+            Self(self.0.clone())
+        }
+    }
+
+    pub fn bounded<T: Describe>(cap: usize) -> (Sender<T>, Receiver<T>) {
+        let (s, r) = crossbeam_channel::bounded(cap);
+        super::sched_log(site_name(T::CHANNEL, "cap"), None, None, Some(cap));
+        (Sender(s), Receiver(r))
+    }
+
+    fn site_name(channel: &'static str, op: &'static str) -> &'static str {
+        match (channel, op) {
+            ("refill", "send") => "refill_send",
+            ("refill", "recv") => "refill_recv",
+            ("refill", _) => "refill_cap",
+            ("encode", "send") => "encode_send",
+            ("encode", "recv") => "encode_recv",
+            ("encode", _) => "encode_cap",
+            ("md5", "send") => "md5_send",
+            ("md5", "recv") => "md5_recv",
+            _ => "md5_cap",
+        }
+    }
+
+    fn push_event(
+        guard: &mut std::sync::MutexGuard<'_, Option<super::SchedState>>,
+        site: &'static str,
+        d: (Option<usize>, Option<usize>),
+        qlen: usize,
+    ) -> u32 {
+        let st = guard.as_mut().expect("active");
         let tid = std::thread::current().id();
         let n = st.threads.len();
         let thread = *st.threads.entry(tid).or_insert(n);
         st.log.push(SchedEvent {
             thread,
             site,
-            buf,
-            frame,
-            qlen,
+            buf: d.0,
+            frame: d.1,
+            qlen: Some(qlen),
         });
-        // xorshift64
-        st.rng ^= st.rng << 13;
-        st.rng ^= st.rng >> 7;
-        st.rng ^= st.rng << 17;
-        let r = (st.rng >> 16) as u32;
-        if r % 100 < st.intensity {
-            1 + (r >> 8) % 3
-        } else {
-            0
+        st.next_action()
+    }
+
+    impl<T: Describe> Sender<T> {
+        pub fn send(&self, item: T) -> Result<(), crossbeam_channel::SendError<T>> {
+            let mut item = item;
+            loop {
+                let mut guard = SCHED.lock().unwrap_or_else(std::sync::PoisonError::into_inner);
+                if guard.is_none() {
+                    drop(guard);
+                    return self.0.send(item);
+                }
+                let d = item.describe();
+                match self.0.try_send(item) {
+                    Ok(()) => {
+                        let a = push_event(&mut guard, site_name(T::CHANNEL, "send"), d, self.0.len());
+                        drop(guard);
+                        sched_perturb(a);
+                        return Ok(());
+                    }
+                    Err(crossbeam_channel::TrySendError::Full(it)) => item = it,
+                    Err(crossbeam_channel::TrySendError::Disconnected(it)) => {
+                        return Err(crossbeam_channel::SendError(it));
+                    }
+                }
+                drop(guard);
+                std::thread::sleep(std::time::Duration::from_micros(20));
+            }
         }
-    };
-    match action {
-        1 => std::thread::yield_now(),
-        2 => std::thread::sleep(std::time::Duration::from_micros(50)),
-        3 => std::thread::sleep(std::time::Duration::from_micros(500)),
-        _ => {}
+        pub fn len(&self) -> usize {
+            self.0.len()
+        }
+        pub fn is_empty(&self) -> bool {
+            self.0.is_empty()
+        }
+    }
+
+    impl<T: Describe> Receiver<T> {
+        pub fn recv(&self) -> Result<T, crossbeam_channel::RecvError> {
+            loop {
+                let mut guard = SCHED.lock().unwrap_or_else(std::sync::PoisonError::into_inner);
+                if guard.is_none() {
+                    drop(guard);
+                    return self.0.recv();
+                }
+                match self.0.try_recv() {
+                    Ok(item) => {
+                        let a = push_event(&mut guard, site_name(T::CHANNEL, "recv"), item.describe(), self.0.len());
+                        drop(guard);
+                        sched_perturb(a);
+                        return Ok(item);
+                    }
+                    Err(crossbeam_channel::TryRecvError::Empty) => {}
+                    Err(crossbeam_channel::TryRecvError::Disconnected) => {
+                        return Err(crossbeam_channel::RecvError);
+                    }
+                }
+                drop(guard);
+                std::thread::sleep(std::time::Duration::from_micros(20));
+            }
+        }
+        pub fn len(&self) -> usize {
+            self.0.len()
+        }
+        pub fn is_empty(&self) -> bool {
+            self.0.is_empty()
+        }
     }
 }
